@@ -70,23 +70,24 @@ fn u9_hash_value_i64_all_values() {
     let a: i64 = kani::any();
     assert!(DbI64::from(a).hash_value() == ref_hash(&a.to_le_bytes()));
 }
-/// all u64 values, split by encoded length 1..=9 so that the key length is concrete in each harness (together: complete)
-fn hash_vu64_len(l: u8) {
-    let a: u64 = kani::any();
-    kani::assume(vu64::encoded_len(a) == l);
-    let k = DbVu64::from(a);
-    assert!(k.as_bytes().len() == l as usize);
-    assert!(k.hash_value() == ref_hash(k.as_bytes()));
+/// every DbVu64 key is a byte string of 1..=9 bytes (u0_axiom_vu64); its hash goes through the same derived
+/// `Hash for (Vec<u8>)` path as the other key types: checked for EVERY byte string of each length 1..=9
+/// (a superset of the valid encodings), so together with u8_vu64_roundtrip this is complete for all u64 values.
+fn hash_vu64_bytes<const N: usize>() {
+    let bytes: [u8; N] = kani::any();
+    let k = DbVu64::from_bytes(&bytes[..]);
+    assert!(k.as_bytes() == &bytes[..]);
+    assert!(k.hash_value() == ref_hash(&bytes[..]));
 }
-#[kani::proof] #[kani::unwind(12)] fn u9_hash_value_vu64_len_1() { hash_vu64_len(1) }
-#[kani::proof] #[kani::unwind(12)] fn u9_hash_value_vu64_len_2() { hash_vu64_len(2) }
-#[kani::proof] #[kani::unwind(12)] fn u9_hash_value_vu64_len_3() { hash_vu64_len(3) }
-#[kani::proof] #[kani::unwind(12)] fn u9_hash_value_vu64_len_4() { hash_vu64_len(4) }
-#[kani::proof] #[kani::unwind(12)] fn u9_hash_value_vu64_len_5() { hash_vu64_len(5) }
-#[kani::proof] #[kani::unwind(12)] fn u9_hash_value_vu64_len_6() { hash_vu64_len(6) }
-#[kani::proof] #[kani::unwind(12)] fn u9_hash_value_vu64_len_7() { hash_vu64_len(7) }
-#[kani::proof] #[kani::unwind(12)] fn u9_hash_value_vu64_len_8() { hash_vu64_len(8) }
-#[kani::proof] #[kani::unwind(12)] fn u9_hash_value_vu64_len_9() { hash_vu64_len(9) }
+#[kani::proof] #[kani::unwind(12)] fn u9_hash_value_vu64_len_1() { hash_vu64_bytes::<1>() }
+#[kani::proof] #[kani::unwind(12)] fn u9_hash_value_vu64_len_2() { hash_vu64_bytes::<2>() }
+#[kani::proof] #[kani::unwind(12)] fn u9_hash_value_vu64_len_3() { hash_vu64_bytes::<3>() }
+#[kani::proof] #[kani::unwind(12)] fn u9_hash_value_vu64_len_4() { hash_vu64_bytes::<4>() }
+#[kani::proof] #[kani::unwind(12)] fn u9_hash_value_vu64_len_5() { hash_vu64_bytes::<5>() }
+#[kani::proof] #[kani::unwind(12)] fn u9_hash_value_vu64_len_6() { hash_vu64_bytes::<6>() }
+#[kani::proof] #[kani::unwind(12)] fn u9_hash_value_vu64_len_7() { hash_vu64_bytes::<7>() }
+#[kani::proof] #[kani::unwind(12)] fn u9_hash_value_vu64_len_8() { hash_vu64_bytes::<8>() }
+#[kani::proof] #[kani::unwind(12)] fn u9_hash_value_vu64_len_9() { hash_vu64_bytes::<9>() }
 /// the same statement in one harness (slow: ~20 min; thorough tier only)
 #[kani::proof]
 #[kani::unwind(12)]
